@@ -25,4 +25,21 @@ def jobs(tier, seed):
     js.append(Job("rs2m.set_params.known_region_n_above_field_size", "rs2m_set_fec_parameters", "c09_rs_set_params.c", ["of_set_fec_parameters", "of_rs_2_m_set_fec_parameters"],
                   repo_sources=srcs, defines={"OFV_CODEC": 2, "OFV_REGION": 1}, unwind=3, timeout=600, status="proved",
                   bound="witness of the known finding: only configurations with n > 2^m-1"))
+    lib = srcs + ["src/lib_stable/reed-solomon_gf_2_8/of_reed-solomon_gf_2_8.c",
+                  "src/lib_stable/reed-solomon_gf_2_m/galois_field_codes_utils/of_galois_field_code.c",
+                  "src/lib_stable/reed-solomon_gf_2_m/galois_field_codes_utils/algebra_2_4.c",
+                  "src/lib_stable/reed-solomon_gf_2_m/galois_field_codes_utils/algebra_2_8.c"]
+    api_fns = ["of_build_repair_symbol", "of_decode_with_new_symbol", "of_set_available_symbols", "of_finish_decoding", "of_is_decoding_complete",
+               "of_get_source_symbols_tab", "of_set_fec_parameters", "of_set_callback_functions", "of_get_control_parameter", "of_set_control_parameter"]
+    calls = ["build_repair_symbol", "decode_with_new_symbol", "set_available_symbols", "finish_decoding", "is_decoding_complete",
+             "get_source_symbols_tab", "set_fec_parameters", "set_callback_functions", "get_control_parameter", "set_control_parameter"]
+    bads = {0: ("null_session", range(10)), 1: ("wrong_role", range(0, 6)), 2: ("bad_esi", (0, 1)), 3: ("null_argument", (1, 2, 6))}
+    for c, nm in ((1, "rs28"), (2, "rs2m")):
+        for b, (bn, cl) in bads.items():
+            for call in cl:
+                js.append(Job("dispatch.%s.%s.%s" % (nm, calls[call], bn), "dispatch_argument_validation", "c09_dispatch.c", ["of_" + calls[call]],
+                              repo_sources=srcs, defines={"OFV_CODEC": c, "OFV_CALL": call, "OFV_BAD": b}, unwind=20, unwindset=["memcmp.0:400"], object_bits=12,
+                              remove_bodies=["of_rs_finish_decoding", "of_rs_2_m_finish_decoding"],
+                              timeout=600, mem_gb=6, status="proved",
+                              bound="session shape n <= 15, length <= 4 (rejected calls are loop-free; the bound only sizes the harness tables)"))
     return js
